@@ -80,7 +80,7 @@ CHECKS["C02"] = {
 CHECKS["C05"] = {
     "engine": "E1",
     "technique": "bounded exhaustive differential enumeration: every comment-line text up to length L over the structural alphabet inserted at every position of every small conventional file, real parser on both",
-    "level_text": "for all 28 delimiter/comment configurations (incl. the empty comment set), every base file of <= N lines over one line of each kind, every insertion point, "
+    "level_text": "for all 28 delimiter/comment configurations (incl. the empty comment set) and three comment sets whose characters also start other syntax ([ and the quote), every base file of <= N lines over one line of each kind, every insertion point, "
                   "every indentation, every comment character and EVERY text of length <= L over {comment chars, delimiters, blank, quote, brackets, letter, =} "
                   "is parsed with and without the line by the real code; listings must be identical and both reads must succeed; the character sets are passed in "
                   "buffers that held other sets during an unrelated preceding read; part insert-long: comment lines of 8 Ki .. 40000 characters with every token "
